@@ -52,8 +52,8 @@ def judge_logprobs(dep, rec, info, L, probes, kind):
     want_all = bool(kw.get("return_all_logprobs"))
     if rec["raised"] is not None:
         ll = info.get("ll")
-        if ll is not None and len(ll) and np.any(np.isnan(ll)):
-            return v
+        if ll is not None and len(ll) and (np.any(np.isnan(ll)) or not np.any(np.isfinite(ll))):
+            return v  # NaN, or no finite likelihood among the evaluated rows: outside the quantifier
         if info.get("legit_raise"):
             return v
         if want_lp and A.nl > 1:
@@ -128,4 +128,6 @@ def evaluate(dep, program):
             if kk in scratch:
                 probes[kk] = probes.get(kk, 0) + scratch[kk]
     probes["lstar_evals"] = L.evals
+    if program["config"].get("ll_override"):
+        probes["runs_with_neg_inf_profile_stub(kernel output overridden)"] = 1
     return v, probes
